@@ -358,11 +358,16 @@ func (w *sworld) stepSync(c int, rs []int, fault string, hold int, mut *mutation
 	}
 	hung := guarded(obs, func() {
 		var packs []*model.PushPullPack
+		pre := make([]interface{}, 0)
 		for _, r := range rs {
 			p := w.reps[r].wired.CreatePushPullPack()
+			// the client side before the exchange (what a refused exchange has to leave as it is)
+			pre = append(pre, J{"r": r, "cp": []interface{}{p.CheckPoint.Sseq, p.CheckPoint.Cseq - uint64(len(p.Operations))},
+				"npending": len(p.Operations), "view": viewJ(w.reps[r].dt), "key": w.reps[r].wired.GetKey()})
 			applyMut(p, mut)
 			packs = append(packs, p)
 		}
+		obs["pre"] = pre
 		reqJ := make([]interface{}, 0)
 		for _, p := range packs {
 			reqJ = append(reqJ, packJ(p))
